@@ -7,5 +7,5 @@ CONSTANTS
   IdSize = 2
   VecSize = 128
   Weaken = "none"
-  Domain = "quick"
+  Domain = "attack"
 INVARIANT InvAgreeThroughMsgID
